@@ -64,6 +64,11 @@ func LoadProgram(overlay map[string][]byte, needDeps bool) (*Program, error) {
 		if strings.HasPrefix(e, "GOFLAGS=") || strings.HasPrefix(e, "GOWORK=") {
 			continue
 		}
+		if strings.HasPrefix(e, "PATH=") {
+			if _, err := os.Stat("/opt/veriftools/go1.26.8/bin/go"); err == nil && !strings.Contains(e, "/opt/veriftools/go1.26.8/bin") {
+				e = "PATH=/opt/veriftools/go1.26.8/bin:" + e[5:]
+			}
+		}
 		env = append(env, e)
 	}
 	env = append(env, "GOFLAGS=", "GOPROXY=off", "GOSUMDB=off", "GOTOOLCHAIN=local", "CGO_ENABLED=0")
